@@ -217,13 +217,25 @@ pub fn prop(c: &Case, log: &mut CaseLog) -> Verdict {
             if skip {
                 continue;
             }
+            // occurrences in code that is never emitted (an uninvoked macro is analysed once, without a second look at
+            // forward references): whatever the server says about them is not judged
+            let in_dead = |x: usize| p.dead.iter().any(|(lo, hi)| x >= *lo && x < *hi);
+            let dead_occ: BTreeSet<Rng> = p
+                .bindings
+                .uses
+                .iter()
+                .flat_map(|u| u.comps.iter().map(|((x, y), _)| (*x, *y)).collect::<Vec<_>>())
+                .chain(p.bindings.defs.iter().filter_map(|d| d.range))
+                .filter(|(x, _)| in_dead(*x))
+                .map(|(x, y)| to_rng(r, x, y))
+                .collect();
             // `super` path components are no identifiers: whatever the server says about them is not judged here
             let supers: BTreeSet<Rng> = p.bindings.uses.iter().flat_map(|u| u.path.iter().zip(u.comps.iter()).filter(|(c, _)| *c == "super").map(|(_, ((x, y), _))| to_rng(r, *x, *y)).collect::<Vec<_>>()).collect();
             let (l, col) = r.line_col(a + (b - a) / 2);
             let pos = json!({"line": l - 1, "character": col - 1});
             for incl in [true, false] {
                 let resp = s.client.request("textDocument/references", json!({"textDocument": {"uri": uri}, "position": pos, "context": {"includeDeclaration": incl}}), t)?;
-                let got: BTreeSet<Rng> = resp.as_array().map(|v| v.iter().filter_map(|x| json_rng(&x["range"])).filter(|g| !supers.contains(g)).collect()).unwrap_or_default();
+                let got: BTreeSet<Rng> = resp.as_array().map(|v| v.iter().filter_map(|x| json_rng(&x["range"])).filter(|g| !supers.contains(g) && !dead_occ.contains(g)).collect()).unwrap_or_default();
                 let mut want = uses.clone();
                 if incl {
                     want.insert(to_rng(r, a, b));
@@ -238,7 +250,7 @@ pub fn prop(c: &Case, log: &mut CaseLog) -> Verdict {
                 }
             }
             let resp = s.client.request("textDocument/documentHighlight", json!({"textDocument": {"uri": uri}, "position": pos}), t)?;
-            let got: BTreeSet<Rng> = resp.as_array().map(|v| v.iter().filter_map(|x| json_rng(&x["range"])).filter(|g| !supers.contains(g)).collect()).unwrap_or_default();
+            let got: BTreeSet<Rng> = resp.as_array().map(|v| v.iter().filter_map(|x| json_rng(&x["range"])).filter(|g| !supers.contains(g) && !dead_occ.contains(g)).collect()).unwrap_or_default();
             let mut want = uses.clone();
             want.insert(to_rng(r, a, b));
             if got != want {
